@@ -885,7 +885,11 @@ int vorbis_synthesis_blockin(vorbis_dsp_state *v,vorbis_block *vb){
         if(extra<0)
           extra=0;
 
-        if(vb->eofflag){
+        if(v->pcm_returned==-1){
+          /* nothing has been decoded into the buffer since the last
+             (re)start (track-only blocks): there are no samples to
+             trim, and the 'no data yet' marker must stay in place */
+        }else if(vb->eofflag){
           /* trim the end */
           /* no preceding granulepos; assume we started at zero (we'd
              have to in a short single-page stream) */
@@ -916,7 +920,7 @@ int vorbis_synthesis_blockin(vorbis_dsp_state *v,vorbis_block *vb){
       if(v->granulepos>vb->granulepos){
         long extra=v->granulepos-vb->granulepos;
 
-        if(extra)
+        if(extra && v->pcm_returned!=-1)
           if(vb->eofflag){
             /* partial last frame.  Strip the extra samples off */
 
